@@ -80,3 +80,5 @@ def run(ctx):
                        "ROLLBACK TO an inner savepoint has no before-image for that row" % (describe_path(f, esc[0]), sorted(tails) or "nothing"))
         ctx.ob("K6.LOG-EVERY-WRITE", f.id.rsplit("::", 1)[-1], ok, why, f.loc())
     ctx.floor("K6.appenders", k6, 2)
+    # shared with C10 X4: rollback / UPDATE / DELETE must address index entries under the key INSERT stored them
+    dmlrules.index_key_suffix_rule(ctx, "K7.KEY-SUFFIX", dmlrules.KEY_SUFFIX_TOLERATED)
